@@ -20,7 +20,7 @@ package layer4
 // Connection gets is stream position vpos. Outside matching mode the buffer is either empty or
 // has unread bytes (unread); in matching mode that holds for the frozen offset.
 //@ pred ok(cx *Connection) = cx != nil && cx.Conn != nil && 0 <= cx.offset && cx.offset <= len(cx.buf)
-//@   && len(cx.buf) <= rpos(cx.Conn) && rpos(cx.Conn) < 4611686018427387904 && !inpool(arr(cx.buf))
+//@   && len(cx.buf) <= rpos(cx.Conn) && rpos(cx.Conn) < 4611686018427387904 && (isnil(cx.buf) || !inpool(arr(cx.buf)))
 //@ pred unread(cx *Connection, o int) = o < len(cx.buf) || (o == 0 && len(cx.buf) == 0)
 //@ pred shape(cx *Connection) = ok(cx)
 //@   && (cx.matching ==> 0 <= cx.frozenOffset && cx.frozenOffset <= cx.offset && unread(cx, cx.frozenOffset))
@@ -80,14 +80,15 @@ package layer4
 //@ ensures[C05] old(len(cx.buf)) >= MaxMatchingBytes ==> err == ErrMatchingBufferFull && rpos(cx.Conn) == old(rpos(cx.Conn)) && sameslice(cx.buf, old(cx.buf))
 //@ ensures[C01] !inpool(arr(cx.buf))
 
-// Wrap is only stream-preserving when no buffered bytes are pending (otherwise the new inner conn
-// and the copied buffer would both deliver them): the caller's obligation.
+// Wrap: the new connection starts with an empty buffer over conn (the bytes still buffered in cx reach
+// it through conn, which reads from cx), hence is well formed whatever cx's buffer holds.
 //@ func (cx *Connection) Wrap(conn net.Conn) *Connection
 //@ requires cx != nil
 //@ safety C04
 //@ assigns[C01] nothing
-//@ ensures[C01] result != nil && fresh(result) && result.Conn == conn && sameslice(result.buf, cx.buf) && result.offset == cx.offset && result.matching == cx.matching
+//@ ensures[C01] result != nil && fresh(result) && result.Conn == conn && isnil(result.buf) && len(result.buf) == 0 && result.offset == 0 && result.matching == cx.matching
 //@ ensures[C01] result.Context == cx.Context && result.Logger == cx.Logger
+//@ ensures[C01] conn != nil && rpos(conn) >= 0 && rpos(conn) < 4611686018427387904 && !cx.matching ==> wf(result)
 
 // The interface every connection matcher is checked against (refinement) and that the matcher
 // sets rely on: a matcher is entered frozen at the frozen offset, may only move the offset, and
